@@ -34,6 +34,7 @@ POOLS = {
     "oi": [None, 1, 2, 3],
     "ob": [None, True, False],
     "obn": [None, True, False],
+    "ol": [None, [], ["a"], ["a", "b"], ["red", "green", "blue"]],        # object cells that are lists (unhashable)
     "y": ["a", "b", "ab", "B"],
     "i8": [-128, -127, -1, 0, 1, 127],
     "u8": [0, 1, 2, 254, 255],
@@ -47,7 +48,7 @@ TIGHT = {
     "s": ["", "a", "b", P49 + "a", "a\x00"], "u": ["", "a", "b"], "d": [None, "1970-01-01", "2020-12-31"],
     "t": [None, "1970-01-01T00:00:00.000001", "2020-12-31T12:00:00"], "tm": POOLS["tm"][:3], "ts": POOLS["ts"][:3],
     "td": [None, 0, 1], "tn": [None, "2020-12-31T12:00:00.000000500", "2020-12-31T12:00:00.000000499", "2020-12-31T12:00:00.000001"],
-    "o": [None, "a", "b"], "oi": [None, 1, 2], "ob": [None, True, False], "obn": [None, True, False], "y": ["a", "b"],
+    "o": [None, "a", "b"], "oi": [None, 1, 2], "ob": [None, True, False], "obn": [None, True, False], "ol": [None, ["a"], ["a", "b"]], "y": ["a", "b"],
     "i8": [-128, 0, 127], "u8": [0, 1, 255], "f32": [NAN, 0.0, 1.0, 0.5], "i32": [0, 1, 2**31 - 1],
 }
 
@@ -72,6 +73,7 @@ TAILS = {
     "oi": st.integers(-9, 9),
     "ob": st.booleans(),
     "obn": st.booleans(),
+    "ol": st.lists(st.sampled_from(["a", "b", "c"]), max_size=3),
     "y": st.text(alphabet="abAB", min_size=1, max_size=3),
     "i8": st.integers(-128, 127),
     "u8": st.integers(0, 255),
@@ -80,7 +82,7 @@ TAILS = {
 }
 
 NA_VALUE = {"f": NAN, "f32": NAN, "s": "", "u": "", "d": None, "t": None, "tm": None, "ts": None, "tn": None, "td": None,
-            "o": None, "oi": None, "ob": None, "obn": None}
+            "o": None, "oi": None, "ob": None, "obn": None, "ol": None}
 
 
 # Distinct values whose hashes coincide in CPython (hash(-1) == hash(-2), numbers are hashed modulo 2**61 - 1, inf hashes
